@@ -10,13 +10,13 @@ EXTENDS Yuvxyb, Json
 \* both dimensions at a threshold at once (HD width with an SD height): only constructors and the matrix-only encode run
 \* on these (JointFilter), the per-pixel curve stages would make 700k-pixel frames too slow for every config
 JointSizes == {<<1280, 576>>, <<1280, 480>>, <<1280, 488>>, <<1281, 577>>}
-ThreshW == {1, 2, 1279, 1280, 1281}
-ThreshH == {1, 2, 479, 480, 481, 484, 487, 488, 489, 575, 576, 577, 1080}
+ThreshW == {1, 2, 1279, 1280, 1281, 1920, 3840, 4096}
+ThreshH == {1, 2, 479, 480, 481, 484, 487, 488, 489, 575, 576, 577, 720, 1080, 2160}
 \* thresholds are crossed one dimension at a time (cheap frames) plus a few joint sizes
 UnspecSizes == {<<w, h>> : w \in ThreshW, h \in {1, 2}} \cup {<<w, h>> : w \in {1, 2}, h \in ThreshH}
                \cup {<<1279, 576>>, <<1279, 480>>} \cup JointSizes
 UnspecSizesQuick == {<<2, 2>>, <<1279, 2>>, <<1280, 2>>, <<1281, 1>>, <<2, 479>>, <<2, 480>>, <<1, 481>>, <<2, 484>>, <<1, 487>>, <<2, 488>>, <<1, 489>>,
-                     <<2, 576>>, <<1, 575>>, <<2, 577>>, <<2, 1080>>} \cup JointSizes
+                     <<2, 576>>, <<1, 575>>, <<2, 577>>, <<2, 1080>>, <<3840, 2>>, <<2, 2160>>} \cup JointSizes
 SupportSizes == {<<2, 2>>}
 Ss00 == {<<0, 0>>}
 McNoUnspec == McAll \ {Unspec}
